@@ -309,8 +309,15 @@ def real_load(data, safe=None):
         calls[-1][2] = True
         objs.setdefault(id(r), []).append((m, n))
         return r
-    out = {"result": None}
-    with mock.patch.object(_RestrictedUnpickler, "find_class", spy):
+    out = {"result": None, "pids": []}
+    orig_pl = _RestrictedUnpickler.persistent_load
+
+    def spy_pl(self, pid):
+        r = orig_pl(self, pid)
+        out["pids"].append((pid, r))
+        return r
+    with mock.patch.object(_RestrictedUnpickler, "find_class", spy), \
+            mock.patch.object(_RestrictedUnpickler, "persistent_load", spy_pl):
         try:
             out["result"] = pickle_load(data, safe_to_import=safe)
             out["cls"] = "ok"
@@ -534,6 +541,13 @@ FORBIDDEN_G = [(BAD, "boom"), (BAD, "Cls"), (BAD, "value"), (BAD, "nothing"), ("
                ("re", "compile"), ("uuid", "uuid4"), ("deepdiff.helper", "np"), ("deepdiff", "helper"), ("builtins", "INT"),
                ("Builtins", "int"), ("copyreg", "_reconstructor"), ("_codecs", "encode"), ("builtins", "object"),
                ("collections", "deque"), ("orderly_set.sets", "OrderedSe"), ("orderly_set", "sets"), (BAD, "Cls.__init__")]
+# persistent ids: only "<<NoneType>>" has a meaning; everything else must load as None
+PID_POOL = ["<<FunctionType>>", "<<SimpleNamespace>>", "<<CodeType>>", "<<ModuleType>>", "<<MethodType>>", "<<new_class>>",
+            "<<GenericAlias>>", "<<int>>", "<<eval>>", "<<object>>", "<<getattr>>", "<<boom>>", "<<Cls>>", "<<make>>", "<<Thing>>",
+            "NoneType", "<NoneType>", "<<NoneType>> ", " <<NoneType>>", "<<nonetype>>", "<<NoneType", "types.FunctionType",
+            "types.SimpleNamespace", "builtins.eval", "builtins.int", BAD + ".boom", "<<" + BAD + ".boom>>", "<<types.SimpleNamespace>>",
+            "<<builtins.int>>", "<<>>", "", "other", "<<__class__>>", "<<__dict__>>", "<<EllipsisType>>", "<<NotImplementedType>>"]
+
 # never used as a callee with arguments (harmless even if a mutant allowed them): only looked up
 LOOKUP_ONLY = {("builtins", "eval"), ("builtins", "getattr")}
 
@@ -573,6 +587,15 @@ class Gen:
         if k < self.hostile + 0.2:
             return ("global",) + r.choice(SOMETIMES_G)
         return ("global",) + r.choice(ALLOWED_G)
+
+    def persid(self):
+        r = self.rng
+        k = r.random()
+        if k < 0.25:
+            return ("persid", ("str", "<<NoneType>>"))
+        if k < 0.85:
+            return ("persid", ("str", r.choice(PID_POOL)))
+        return ("persid", r.choice([("int", 1), ("bytes", b"<<NoneType>>"), ("none",), self.hashable_node(1)]))
 
     def hashable_node(self, depth):
         r = self.rng
@@ -646,7 +669,7 @@ class Gen:
         if k < 0.75:
             return ("frozenset", [self.hashable_node(1) for _ in range(r.randint(0, 3))])
         if k < 0.79:
-            return ("persid", r.choice([("str", "<<NoneType>>"), ("str", "other"), ("int", 1), self.hashable_node(1)]))
+            return self.persid()
         if not self.calls:
             return self.atom()
         g = self.glob()
@@ -656,6 +679,14 @@ class Gen:
         if r.random() < 0.25:   # bury something (possibly hostile) in the arguments
             args = args + [self.node(depth - 1)]
         form = r.random()
+        if r.random() < 0.12:   # a persistent id in the position of a class / callable
+            pn = self.persid()
+            k2 = r.random()
+            if k2 < 0.5:
+                return ("reduce", pn, ("tuple", r.choice([[], [("int", 1)]])))
+            if k2 < 0.75:
+                return ("obj", pn, r.choice([[], [("str", "a")]]))
+            return ("newobj", pn, ("tuple", []))
         if form < 0.35:
             callee = g if r.random() < 0.9 else self.node(depth - 1)
             argn = ("tuple", args) if r.random() < 0.93 else ("list", args)
@@ -1177,6 +1208,13 @@ def program_case(ctx, ci, cfg, ops, call_fail, build_fail, with_value, tag, ext=
         ctx.fail(dict(case, touched=FLAGS["touched"][:5], called=FLAGS["called"][:5], ext=bool(ext)),
                  "a module none of whose names is allowed was touched while loading (attribute access: %r, calls: %r)" % (
                      FLAGS["touched"][:3], FLAGS["called"][:3]))
+    # a persistent id is not a second way to name a global: only "<<NoneType>>" means anything
+    for pid, got in res["pids"]:
+        ctx.count("prog:persistent-id")
+        want_nonetype = type(pid) is str and pid == "<<NoneType>>"
+        if (want_nonetype and got is not type(None)) or (not want_nonetype and got is not None):
+            ctx.fail(dict(case, persistent_id=repr(pid), produced=repr(got)),
+                     "persistent_load(%r) produced %r: a persistent id resolved an object outside the allow-list mechanism" % (pid, got))
     # the same bytes through the public entry points Delta(bytes) / delta_path / delta_file
     if tag.get("via_delta"):
         from deepdiff import Delta
@@ -1301,10 +1339,20 @@ def fixed_programs(ctx, cfgs):
         [("GLOBAL", "copyreg", "_reconstructor"), ("STOP",)],
         [("EXT1", 0), ("STOP",)],
         [("EXT1", 201), ("STOP",)],
+        [("PERSID", "<<FunctionType>>"), ("STOP",)],
+        [("PROTO", 4), S("<<SimpleNamespace>>"), ("BINPERSID",), ("EMPTY_TUPLE",), ("REDUCE",), ("STOP",)],
+        [("PERSID", "<<NoneType>>"), ("EMPTY_TUPLE",), ("REDUCE",), ("STOP",)],
+        [("MARK",), ("PERSID", "<<ModuleType>>"), S("m"), ("OBJ",), ("STOP",)],
+        [("PROTO", 2), S("<<" + BAD + ".boom>>"), ("BINPERSID",), ("EMPTY_TUPLE",), ("NEWOBJ",), ("STOP",)],
+        [("PERSID", BAD + ".boom"), ("STOP",)],
+        [("PROTO", 3), ("BINBYTES", b"<<NoneType>>"), ("BINPERSID",), ("STOP",)],
     ]
+    # calls of None (what every unknown persistent id is) raise TypeError: the oracle entries of those programs
+    none_calls = [["reduce", None, ["T", []]], ["obj", None, ["T", [["s", "m"]]]]]
     for p in progs:
+        has_call = any(o[0] in ("REDUCE", "OBJ", "NEWOBJ", "NEWOBJ_EX", "INST", "BUILD") for o in p)
         for ci in (0, 1):
-            c = program_case(ctx, ci, cfgs[ci], p, [], [], True, {"kind": "fixed"})
+            c = program_case(ctx, ci, cfgs[ci], p, none_calls if has_call else [], [], not has_call, {"kind": "fixed"})
             if c:
                 cases.append(c)
     # ---- the extension registry / cache ------------------------------------
